@@ -16,6 +16,7 @@ import (
 	"github.com/csgura/fp/iterator"
 	"github.com/csgura/fp/lazy"
 	"github.com/csgura/fp/list"
+	"github.com/csgura/fp/ord"
 	"github.com/csgura/fp/seq"
 )
 
@@ -297,6 +298,23 @@ func collOf(c cur) *coll {
 	}
 }
 
+var mmName = map[string]string{"minKey": "Min", "maxKey": "Max"}
+
+// keyOrdInt: the same order "by key" built in the different ways the library offers.
+func keyOrdInt(v int, key func(int) int) fp.Ord[int] {
+	switch abs(v) % 5 {
+	case 0:
+		return fp.CompareFunc[int](func(a, b int) int { return key(a) - key(b) })
+	case 1:
+		return fp.LessFunc[int](func(a, b int) bool { return key(a) < key(b) })
+	case 2:
+		return ord.ContraMap(ord.Given[int](), key)
+	case 3:
+		return ord.GivenField(key)
+	}
+	return ord.FromCompare(func(a, b int) int { return key(a) - key(b) })
+}
+
 func clip(xs []int) string {
 	if len(xs) <= 24 {
 		return fmt.Sprint(xs)
@@ -306,7 +324,7 @@ func clip(xs []int) string {
 
 // terminal kinds (abstract); availability depends on the collection.
 var termKinds = []string{"toSeq", "count", "fold", "foldLeft", "foldLeftMap", "foldRightMap", "foldTry", "foldOption", "foldError", "foldRight", "foldRightShort",
-	"foldMap", "reduce", "reduceAff", "reduceStr", "groupBy", "min", "max", "minKey", "toMap", "toGoMap", "toSet", "toGoSet", "sort", "exists", "forAll", "find",
+	"foldMap", "reduce", "reduceAff", "reduceStr", "groupBy", "min", "max", "minKey", "maxKey", "toMap", "toGoMap", "toSet", "toGoSet", "sort", "exists", "forAll", "find",
 	"mkString", "foreach", "extra"}
 
 // termNames returns the library call-site names a terminal kind resolves to for a world.
@@ -351,7 +369,7 @@ func termNames(kind string, world int) []string {
 		return has(cl.groupBy != nil, up("GroupBy"))
 	case "min", "minKey":
 		return has(cl.min != nil, up("Min"))
-	case "max":
+	case "max", "maxKey":
 		return has(cl.max != nil, up("Max"))
 	case "toMap":
 		return has(cl.toMap != nil, up("ToMap"))
@@ -396,7 +414,7 @@ func sortedKeysF(m map[string]func(exp []int) *failure) []string {
 
 // runTerminal applies terminal (kind, variant ta, parameter tb) to the collection and compares
 // with the plain-slice reference over exp. Returns the library call-site name and a verdict.
-func runTerminal(site func(string), c cur, kind string, ta, tb int, exp []int) (string, *failure) {
+func runTerminal(site func(string), c cur, kind string, ta, tb int, exp []int, note func(string)) (string, *failure) {
 	cl := collOf(c)
 	names := termNames(kind, c.world)
 	if len(names) == 0 {
@@ -641,33 +659,56 @@ func runTerminal(site func(string), c cur, kind string, ta, tb int, exp []int) (
 		if !got.IsDefined() || got.Get() != want {
 			return name, bad(got, want)
 		}
-	case "minKey":
-		// order by a key only: any element with the minimal key is a correct answer
-		key := func(x int) int { return abs(x) % 7 }
-		o := fp.CompareFunc[int](func(a, b int) int { return key(a) - key(b) })
-		got := cl.min(o)
+	case "minKey", "maxKey":
+		// order by a key the element's value is not determined by: several elements tie for the
+		// extreme. Any of them is an extreme element, but the property ties Iterator and List to
+		// the eager Seq computation, so which of the tied elements is returned is what seq.Min /
+		// seq.Max return on the same elements.
+		m := 2 + abs(tb)%6
+		desc := ta%2 == 1
+		key := func(x int) int {
+			if desc {
+				return -(abs(x) % m)
+			}
+			return abs(x) % m
+		}
+		o := keyOrdInt(ta/2, key)
+		var got, ref fp.Option[int]
+		if kind == "minKey" {
+			got, ref = cl.min(o), seq.Min(fp.Seq[int](append([]int(nil), exp...)), o)
+		} else {
+			got, ref = cl.max(o), seq.Max(fp.Seq[int](append([]int(nil), exp...)), o)
+		}
 		if n == 0 {
 			if got.IsDefined() {
 				return name, bad(got, "None")
 			}
 			break
 		}
-		mk := key(exp[0])
+		ek := key(exp[0])
 		for _, x := range exp {
-			if key(x) < mk {
-				mk = key(x)
+			if (kind == "minKey" && key(x) < ek) || (kind == "maxKey" && key(x) > ek) {
+				ek = key(x)
 			}
 		}
-		ok := false
-		if got.IsDefined() && key(got.Get()) == mk {
-			for _, x := range exp {
-				if x == got.Get() {
-					ok = true
-				}
+		tied := map[int]bool{}
+		for _, x := range exp {
+			if key(x) == ek {
+				tied[x] = true
 			}
 		}
-		if !ok {
-			return name, bad(got, fmt.Sprintf("an element with key %d", mk))
+		if !got.IsDefined() || !tied[got.Get()] {
+			return name, bad(got, fmt.Sprintf("an element with key %d", ek))
+		}
+		if len(tied) > 1 {
+			note("ties.pipeline_" + kind + "_tied")
+		}
+		if !ref.IsDefined() || !tied[ref.Get()] {
+			return "seq." + mmName[kind], failf("disagrees", "seq."+mmName[kind], "the eager computation itself returns %v, not an element with the extreme key %d (input %s)", ref, ek, clip(exp))
+		}
+		if got.Get() != ref.Get() {
+			return name, failf("tie-choice", name, "%s = %d but the eager Seq computation (seq.%s with the same Ord on the same elements) = %d: both have the extreme key %d (elements ordered by |x|%%%d, descending=%v), %d distinct elements tie (input %s)",
+				name, got.Get(), mmName[kind], ref.Get(), ek, m, desc, len(tied), clip(exp))
 		}
 	case "toMap", "toGoMap":
 		m := 1 + abs(tb)%9
